@@ -156,6 +156,8 @@ pub struct BCfg {
     builder: String,
     app_abs: bool,
     preprocessor: bool,
+    /// distinguishes the edits of different preprocessors (build vs. rebuild)
+    pre_tag: u8,
     buildpacks: Vec<String>,
     env: Vec<(String, String)>,
 }
@@ -186,7 +188,7 @@ fn bcfg() -> impl Strategy<Value = BCfg> {
         proptest::collection::vec(nonempty_tricky().prop_filter("csv metacharacters are outside the domain", |s| csv_safe(s)), 0..6),
         proptest::collection::vec((env_key(), tricky()), 0..7),
     )
-        .prop_map(|(builder, app_abs, preprocessor, buildpacks, env)| BCfg { builder, app_abs, preprocessor, buildpacks, env })
+        .prop_map(|(builder, app_abs, preprocessor, buildpacks, env)| BCfg { builder, app_abs, preprocessor, pre_tag: 0, buildpacks, env })
 }
 
 fn ccfg() -> impl Strategy<Value = CCfg> {
@@ -202,11 +204,28 @@ fn ccfg() -> impl Strategy<Value = CCfg> {
 }
 
 fn case_strategy() -> impl Strategy<Value = Case> {
-    (bcfg(), proptest::collection::vec(ccfg(), 0..3), proptest::option::of(tricky()), proptest::option::weighted(0.3, bcfg())).prop_map(|(build, containers, run_shell, rebuild)| Case { build, containers, run_shell, rebuild })
+    (bcfg(), proptest::collection::vec(ccfg(), 0..3), proptest::option::of(tricky()), proptest::option::weighted(0.3, bcfg()), any::<bool>()).prop_map(|(build, mut containers, run_shell, mut rebuild, same_app)| {
+        if let Some(rb) = rebuild.as_mut() {
+            // the rebuild's preprocessor makes different edits than the first build's
+            rb.pre_tag = 1;
+            if same_app {
+                rb.app_abs = build.app_abs;
+            }
+        }
+        // half of the containers with an entrypoint and a command start the command with the entrypoint string itself
+        for (i, cc) in containers.iter_mut().enumerate() {
+            if let (Some(e), Some(cmd)) = (&cc.entrypoint, cc.command.as_mut()) {
+                if i % 2 == 0 && !cmd.is_empty() {
+                    cmd[0] = e.clone();
+                }
+            }
+        }
+        Case { build, containers, run_shell, rebuild }
+    })
 }
 
 fn bcfg_json(b: &BCfg, manifest_abs_app: &str) -> Value {
-    json!({"builder": b.builder, "app_dir": if b.app_abs { manifest_abs_app.to_string() } else { "fixtures/app".to_string() }, "buildpacks": b.buildpacks, "env": b.env.iter().map(|(k, v)| json!([k, v])).collect::<Vec<_>>(), "expect_failure": false, "preprocessor": b.preprocessor})
+    json!({"builder": b.builder, "app_dir": if b.app_abs { manifest_abs_app.to_string() } else { "fixtures/app".to_string() }, "buildpacks": b.buildpacks, "env": b.env.iter().map(|(k, v)| json!([k, v])).collect::<Vec<_>>(), "expect_failure": false, "preprocessor": b.preprocessor, "pre_tag": b.pre_tag})
 }
 
 fn scenario_json(c: &Case, manifest_abs_app: &str) -> Value {
@@ -267,9 +286,10 @@ fn check_pack_build(a: &[String], cfg: &BCfg, o: &trrun::TrOutcome, entry: &Valu
     let names: BTreeSet<String> = listing.as_object().map(|m| m.keys().cloned().collect()).unwrap_or_default();
     if cfg.preprocessor {
         ensure!(Path::new(paths[0]) != fixture, "C17:preprocessor-ran-on-fixture-path", "--path is the fixture itself although a preprocessor is configured");
-        let want: BTreeSet<String> = ["file.txt", "sub/inner", "preprocessed.txt"].iter().map(|s| s.to_string()).collect();
+        let marker = if cfg.pre_tag == 0 { "preprocessed.txt".to_string() } else { format!("preprocessed-{}.txt", cfg.pre_tag) };
+        let want: BTreeSet<String> = ["file.txt", "sub/inner", marker.as_str()].iter().map(|s| s.to_string()).collect();
         ensure!(names == want, "C17:app-copy-content", "the directory handed to pack contains {names:?}, expected fixture + preprocessor edits {want:?}");
-        ensure!(listing["file.txt"] == "fixture file" && listing["preprocessed.txt"] == "added by the preprocessor", "C17:app-copy-content", "{listing}");
+        ensure!(listing["file.txt"] == "fixture file" && listing[marker.as_str()] == "added by the preprocessor", "C17:app-copy-content", "{listing}");
     } else {
         ensure!(Path::new(paths[0]) == fixture, "C17:app-path", "--path {:?}, fixture {:?}", paths[0], fixture);
     }
@@ -481,6 +501,7 @@ fn bcfg_from_json(v: &Value) -> BCfg {
         builder: v["builder"].as_str().unwrap().into(),
         app_abs: v["app_dir"].as_str().unwrap().starts_with('<') || v["app_dir"].as_str().unwrap().starts_with('/'),
         preprocessor: v["preprocessor"].as_bool().unwrap(),
+        pre_tag: v["pre_tag"].as_u64().unwrap_or(0) as u8,
         buildpacks: v["buildpacks"].as_array().unwrap().iter().map(|s| s.as_str().unwrap().to_string()).collect(),
         env: v["env"].as_array().unwrap().iter().map(|kv| (kv[0].as_str().unwrap().to_string(), kv[1].as_str().unwrap().to_string())).collect(),
     }
